@@ -220,7 +220,7 @@ def fuzz_runner(sub, tier, seed, shard, nshards, rec):
 
 SUBS = [
     Sub("fuzz", fuzz_check, runner=fuzz_runner, shards={"quick": 2, "thorough": 8}, weight=9),
-    Sub("writer", check_writer, strategy=lambda tier: G.indx_cases(40 if tier == "quick" else 120, 50),
+    Sub("writer", check_writer, strategy=lambda tier: G.indx_cases(40 if tier == "quick" else 120, 50, very_long=True),
         examples={"quick": 3000, "thorough": 100000}),
     Sub("reader", check_reader, strategy=lambda tier: reader_cases(30 if tier == "quick" else 80, 40),
         examples={"quick": 3000, "thorough": 100000}),
